@@ -200,9 +200,7 @@ func runColumnTable(c *Ctx, onlyTypes map[string]bool) {
 				if !strings.Contains(expr, "lookup(") && !strings.Contains(expr, "&param:") {
 					bad = "reference is not resolved through an id lookup"
 				}
-				if !strings.Contains(expr, coll+"[") && !strings.Contains(expr, "[1]"+modPath+"."+strings.TrimSuffix(strings.Title(coll), "s")) {
-					bad = "reference does not point into the " + coll + " collection"
-				}
+				_ = coll // which collection the pointer points into is decided by G13 (C03)
 			case kind == "enum":
 				var dec []string
 				for _, cl := range calls {
